@@ -80,6 +80,17 @@ func c13Mutations(c *vCatalogue, m *vPos, sch vMappingSchema) []c13Mut {
 			}
 		}
 	}
+	// a key of a case-sensitive closed mapping written in another letter case is a different,
+	// unknown key
+	if sch.Closed && !sch.CI {
+		for _, k := range m.Keys {
+			up := strings.ToUpper(k.Value)
+			if up == k.Value || k.Len != len(k.Value) {
+				continue
+			}
+			out = append(out, c13Mut{kind: "foreign-recased", key: up, src: c.Replace(k, up), expLine: k.Line, expCol: k.Col, lineMap: func(l int) int { return l }})
+		}
+	}
 	// keys of the other variant of a two-variant mapping (run step / action step, ordinary job /
 	// reusable-workflow-call job): outside the key set of this variant
 	if own, other := c13Variants(m, sch); len(other) > 0 {
@@ -461,8 +472,8 @@ func TestVerifC13(t *testing.T) {
 						r.Sample(map[string]any{"seed": c.Seed, "mapping": m.Path, "schema_path": m.NPath, "mutation": mu.kind, "key": mu.key, "expected_at": []int{mu.expLine, mu.expCol}})
 					}
 				}
-				if mu.kind == "remove" || mu.kind == "remove+extra" {
-					continue
+				if mu.kind == "remove" || mu.kind == "remove+extra" || mu.kind == "foreign-recased" {
+					continue // (re-casing a key takes its whole subtree out of the parse)
 				}
 				for _, s := range sibs {
 					if strings.HasPrefix(mu.kind, "dup") && strings.EqualFold(lastSeg(s.Path), mu.key) {
